@@ -111,6 +111,22 @@ def verify(name, tier="quick", keep=False):
         elif p.returncode not in (0, 1):
             chk["output_tail"] = p.stdout[-500:]
         rec["check"] = chk
+        # a change filed under one property may be reported by the check of another
+        if p.returncode == 0 and name.startswith("X"):
+            others = {}
+            for other in ["C12", "C05", "C10", "C16", "C14", "C17", "C13", "C09", "C11", "C01", "C08", "C06", "C07"]:
+                if other == prop:
+                    continue
+                r2 = subprocess.run(["./check", other, "quick"], cwd=VERIF, env=envc, stdout=subprocess.PIPE, stderr=subprocess.STDOUT, text=True)
+                if r2.returncode != 0:
+                    det2 = [l.strip() for l in r2.stdout.splitlines() if l.strip().startswith(("invariant=", "configuration="))]
+                    others[other] = {"exit": r2.returncode, "detail": (det2[0][:200] if det2 else "")}
+                    for l in r2.stdout.splitlines():
+                        if l.startswith("VIOLATION"):
+                            pth = l.split("replay=")[1].strip()
+                            if os.path.exists(pth):
+                                os.remove(pth)
+            rec["reported_by_other_checks"] = others
     meta["confirmed"] = bool(rec.get("patch_applies") and rec.get("builds") and rec.get("suite_passes")
                              and (rec["demo_on_clean_tree"]["passed"] in (True, None))
                              and (rec.get("demo_on_changed_tree", {}).get("passed") in (False, None)))
